@@ -53,7 +53,6 @@ var c15Cases = []c15Case{
 
 // C15_roundtrip
 func C15_roundtrip() {
-	c := c15Cases[sym.Choice("case", len(c15Cases))]
 	// which part is symbolic: 0 the description, 1 the string default (the
 	// other is a fixed text), 2 both.  quick: 0 or 1 with up to 2 bytes;
 	// thorough: 0 or 1 with up to 3 bytes (three quotes in a row need three),
@@ -77,7 +76,14 @@ func C15_roundtrip() {
 		slen = sym.Choice("string len", maxLen+1)
 		str = sym.String("str", slen)
 	}
-	_ = slen
+	// three symbolic bytes only through the first skeleton (descriptions of a
+	// type, a field and an argument, a string default): with all seven the
+	// thorough tier did not finish in 45 minutes
+	ncases := len(c15Cases)
+	if dlen == 3 || slen == 3 {
+		ncases = 1
+	}
+	c := c15Cases[sym.Choice("case", ncases)]
 	in := sym.Int64("int")
 	sym.Assume(sym.And(in >= -9, in < 100)) // formatting bound (DESIGN.md section 3.4)
 	dText := ""
